@@ -136,7 +136,8 @@ fn digit_precision_of(inc_ns: i128) -> Option<u8> {
 // ---------------------------------------------------------------------------------------------
 // Times of day: PlainTime::round, PlainDateTime::round, to_ixdtf_string
 
-struct TimeRound {
+pub struct TimeRound {
+    name: &'static str,
     vals: Vec<(Inc, i128)>,
     days: Vec<i64>,
 }
@@ -153,6 +154,12 @@ fn time_incs() -> Vec<Inc> {
 }
 
 impl TimeRound {
+    pub fn with_days(name: &'static str, tier: Tier, days: Vec<i64>) -> Self {
+        let mut t = Self::new(tier);
+        t.name = name;
+        t.days = days;
+        t
+    }
     fn new(tier: Tier) -> Self {
         let all_below = tier.pick(20_000, 2_000_000);
         let mut vals = vec![];
@@ -170,13 +177,13 @@ impl TimeRound {
                 }
             }
         }
-        TimeRound { vals, days: vec![18_321, -1, MAX_DAY, MIN_DAY + 1] }
+        TimeRound { name: "c07.time_of_day", vals, days: vec![18_321, -1, MAX_DAY, MIN_DAY + 1] }
     }
 }
 
 impl Space for TimeRound {
     fn name(&self) -> String {
-        "c07.time_of_day".into()
+        self.name.into()
     }
     fn len(&self) -> u64 {
         self.vals.len() as u64
